@@ -138,7 +138,7 @@ def run(tier, seed, work):
                     lc = "zero" if ivs and all(a == 0 and b == 0 for a, b in ivs) else "nonzero"
                 fk += "/count-%s/lhs-%s" % (cc, lc)
             r.violation(ln.key, "%s: `%s`: %s" % (ln.key, ln.cnl, "; ".join(ln.details[:2])),
-                        {"key": ln.key, "cnl": ln.cnl, "cfg": ln.cfg, "details": ln.details, "gated": getattr(ln, "gk", None), "meta": ln.meta, "finding_key": fk}, finding_key=fk)
+                        {"key": ln.key, "cnl": ln.cnl, "cfg": ln.cfg, "details": ln.details, "gated": getattr(ln, "gk", None), "meta": ln.meta, "finding_key": fk}, finding_key=fk, sampled=bool(ln.meta.get("sampled")))
         elif ln.verdict == "broken":
             r.broke("%s: %s" % (ln.key, ln.details[:1]))
     wn = {"clean": 0, "residual": 0, "broken": 0}
